@@ -388,16 +388,23 @@ def run(tier, seed, replay):
                 sb = qutip.NonMarkovianMCSolver(H, [(qutip.sigmam(), qutip.coefficient(rate1, args={"amp": amp}))], options=o)
                 rb = sb.run(psi0, tl, ntraj=4, seeds=[1, 2, 3, 4])
                 ra2 = sa.run(psi0, tl, ntraj=4, seeds=[1, 2, 3, 4], args={"amp": amp})
+                rc = sa.run(psi0, tl, ntraj=4, seeds=[1, 2, 3, 4], args={"amp": -0.5 * amp})
+                rcf = qutip.NonMarkovianMCSolver(H, [(qutip.sigmam(), qutip.coefficient(rate1, args={"amp": -0.5 * amp}))], options=o).run(psi0, tl, ntraj=4, seeds=[1, 2, 3, 4])
+                ra3 = sa.run(psi0, tl, ntraj=4, seeds=[1, 2, 3, 4], args={"amp": amp})
         except Exception as e:
             v("nm-raises", f"NonMarkovianMCSolver: {type(e).__name__}: {e}"[:200])
             continue
         rep.evaluations += 1
         rep.count("nm-args")
-        for name, other in (("run-time args vs construction args", rb), ("second run with the same args", ra2)):
+        for name, other in (("run-time args vs construction args", rb), ("second run with the same args", ra2), ("same args again after a run with other args", ra3)):
             dtr = np.abs(np.asarray(ra.runs_trace) - np.asarray(other.runs_trace)).max()
             dst = max(np.abs(x.full() - y.full()).max() for k in range(4) for x, y in zip(ra.runs_states[k], other.runs_states[k]))
             if dtr > 1e-8 or dst > 1e-8:
-                v(f"nm-args:{'construction' if other is rb else 'repeat'}", f"nm_mcsolve (amp={amp}), {name}: trace weights differ by {dtr:.2e}, states by {dst:.2e}", {"amp": amp})
+                v(f"nm-args:{'construction' if other is rb else 'repeat' if other is ra2 else 'after-other-args'}", f"nm_mcsolve (amp={amp}), {name}: trace weights differ by {dtr:.2e}, states by {dst:.2e}", {"amp": amp})
+        dtr = np.abs(np.asarray(rc.runs_trace) - np.asarray(rcf.runs_trace)).max()
+        dst = max(np.abs(x.full() - y.full()).max() for k in range(4) for x, y in zip(rc.runs_states[k], rcf.runs_states[k]))
+        if dtr > 1e-8 or dst > 1e-8:
+            v("nm-args:other-args-on-a-used-solver", f"nm_mcsolve: a run with amp={-0.5 * amp} on a solver that had run with amp={amp} differs from a fresh solver: trace weights by {dtr:.2e}, states by {dst:.2e}", {"amp": amp})
     for sig, (what, data) in viol.items():
         rep.violation(core.Violation("C16:" + sig, what, data))
     if (ndis or not proved) and not rep.violations:
